@@ -219,6 +219,58 @@ fn e_mac_verify(b: &[u8], k: &K) {
     let _ = o.verify(&mac16);
 }
 
+/// incremental verification fed in pieces: the partition is taken from the input itself (piece lengths 0..=79 from
+/// successive bytes, so that it is reproducible and a fuzzer controls it), with a trailing empty update
+fn e_incremental_verify(b: &[u8], k: &K) {
+    let mut cuts: Vec<usize> = Vec::new();
+    let mut pos = 0usize;
+    let mut i = 0usize;
+    while pos < b.len() {
+        let step = (b[i % b.len()] as usize % 80).min(b.len() - pos);
+        cuts.push(step);
+        pos += step;
+        i += 1;
+        if i > 4 * b.len() + 8 {
+            cuts.push(b.len() - pos);
+            pos = b.len();
+        }
+    }
+    cuts.push(0);
+    let mut mac = [0u8; 32];
+    let n = b.len().min(32);
+    mac[..n].copy_from_slice(&b[..n]);
+    let mac16: [u8; 16] = mac[..16].try_into().unwrap();
+    let mut sig = [0x44u8; 64];
+    let n = b.len().min(64);
+    sig[..n].copy_from_slice(&b[..n]);
+
+    let mut o = OnetimeAuth::new(k.key);
+    let mut a = Auth::new(k.key);
+    let mut s = IncrementalSigner::new();
+    let mut co = crypto_onetimeauth_init(&k.key);
+    let mut ca = crypto_auth_init(&k.key);
+    let mut cs = crypto_sign_init();
+    let mut off = 0usize;
+    for c in &cuts {
+        let piece = &b[off..off + c];
+        off += c;
+        o.update(&piece.to_vec());
+        a.update(&piece.to_vec());
+        s.update(&piece.to_vec());
+        crypto_onetimeauth_update(&mut co, piece);
+        crypto_auth_update(&mut ca, piece);
+        crypto_sign_update(&mut cs, piece);
+    }
+    let _ = o.verify(&mac16);
+    let _ = a.verify(&mac);
+    let _ = s.verify(&sig, &k.spk);
+    let mut out16 = [0u8; 16];
+    crypto_onetimeauth_final(co, &mut out16);
+    let mut out32 = [0u8; 32];
+    crypto_auth_final(ca, &mut out32);
+    let _ = crypto_sign_final_verify(cs, &sig, &k.spk);
+}
+
 #[cfg(feature = "nightly")]
 mod ni {
     use super::*;
@@ -290,6 +342,7 @@ fn eps_stable() -> Vec<Ep> {
         Ep { name: "crypto_sign_verify_detached/final_verify", overhead: 64, call: e_sign_verify_detached, valid: v_signed },
         Ep { name: "SignedMessage::from_bytes+verify/IncrementalSigner::verify", overhead: 64, call: e_sign_obj, valid: v_signed },
         Ep { name: "crypto_auth_verify/crypto_onetimeauth_verify/Auth/OnetimeAuth", overhead: 32, call: e_mac_verify, valid: v_plain },
+        Ep { name: "incremental MAC / signature verification fed in pieces", overhead: 32, call: e_incremental_verify, valid: v_plain },
     ]
 }
 
@@ -418,7 +471,44 @@ fn b64(rng: &mut Rng, n: usize) -> String {
     (0..n).map(|_| A[rng.below(64)] as char).collect()
 }
 
+/// well-formed strings in which exactly one numeric field takes a boundary value (powers of two and neighbours up to
+/// 2^64, decimal edge forms); nothing is hashed, so the cost fields may be as large as the format allows
+fn pw_number_edges(cx: &mut Ctx, idx: &mut u64) {
+    let mut nums: Vec<String> = ["0", "1", "7", "8", "9", "19", "20", "255", "256", "1023", "1024", "65535", "65536", "99999999999999999999", "18446744073709551615", "18446744073709551616", "4294967295", "4294967296", "4194303", "4194304", "4194305", "2097152", "00000000000000000000000000000000000008"].iter().map(|x| x.to_string()).collect();
+    for kbit in 2..=64u32 {
+        let v: u128 = 1u128 << kbit;
+        for d in [-1i128, 0, 1] {
+            nums.push(format!("{}", (v as i128 + d) as u128));
+        }
+    }
+    let kmax = if cx.tier == Tier::Tiny { 24 } else { nums.len() };
+    for (fi, field) in ["v", "m", "t", "p"].iter().enumerate() {
+        for (ni_, num) in nums.iter().take(kmax).enumerate() {
+            for alg in ["argon2id", "argon2i"] {
+                *idx += 1;
+                if !cx.mine(*idx) {
+                    continue;
+                }
+                let mut rng = cx.rng.fork(*idx);
+                let (mut v, mut m, mut t, mut p) = ("19".to_string(), "64".to_string(), "2".to_string(), "1".to_string());
+                match fi {
+                    0 => v = num.clone(),
+                    1 => m = num.clone(),
+                    2 => t = num.clone(),
+                    _ => p = num.clone(),
+                }
+                // canonical base64 of 16 / 32 random bytes, so that the number is the only unusual part
+                let s = format!("${}$v={}$m={},t={},p={}${}${}", alg, v, m, t, p, super::c10::b64enc(&rng.bytes(16)), super::c10::b64enc(&rng.bytes(32)));
+                cx.key(&format!("pw_number_edges {} {} {}", field, ni_, alg));
+                pw_case(cx, &s, "number_edges", false);
+                cx.cover("pw_number_edge_field", field);
+            }
+        }
+    }
+}
+
 fn pw_strings(cx: &mut Ctx, idx: &mut u64) {
+    pw_number_edges(cx, idx);
     let n = cx.tier.pick(40usize, 6000, 200_000);
     let hash_ok = cx.tier != Tier::Tiny;
     let algs = ["argon2i", "argon2id", "argon2d", "argon2x", "argon2", "", "ARGON2ID", "argon2idd"];
